@@ -177,7 +177,7 @@ func runRoRace(r *runner) {
 		select {
 		case s := <-done:
 			r.emit(s)
-		case <-time.After(120 * time.Second):
+		case <-time.After(patience(120 * time.Second)):
 			r.emit("bad hung (scenario did not finish within 120 s)")
 		}
 	}
